@@ -30,7 +30,7 @@ def run_one(args):
     rec["source"], rec["sha"] = new, "mut:" + str(abs(hash(new)))
     mark = len(w.axioms)
     try:
-        r = verify.verify_function(w, m["function"], m["prop"], 10000, refine_of=m.get("refine_of"))
+        r = verify.verify_function(w, m["function"], m["prop"], 30000, refine_of=m.get("refine_of"))
     finally:
         rec["source"], rec["sha"] = old_src, old_sha
         del w.axioms[mark:]
